@@ -130,3 +130,9 @@ package caskettls
 //@ // config object that exists when the directive runs
 //@ func setupTLS
 //@   requires c != nil && forallT(k, *Config, k != nil ==> (k.Manager != nil && k.Issuer != nil))
+
+//@ unit helper_frames frames=on props=C11 nilchecks=on filter=`caskettls\.getPreferredDefaultCiphers$`
+//@ // helpers that other units call through an empty contract ("frame-empty, promises nothing"): here each is verified
+//@ // against exactly that contract (safety and an empty frame), so that assumption is a proved fact
+//@ use @verif/specs/stdlib.spec:stdlib
+//@ func getPreferredDefaultCiphers
